@@ -77,8 +77,8 @@ Print Assumptions C07_example.
 (* D10, before the repair: the same input under the index i - j splits the duplicate pair *)
 Example C07_D10_refuted :
   preb 10 0 (ex_cfg (Some 0)) ex_d10 = true
-  /\ ids_of (runC_with (fun i j => i - j) (matchC (ex_cfg (Some 0))) (ex_cfg (Some 0)) ex_d10) = [[2]; [3]; [0]; [1]]
-  /\ ids_of (runC_with (fun i j => i - j) (matchC (ex_cfg None)) (ex_cfg None) ex_d10) = [[0]; [1]; [2; 3]].
+  /\ ids_of (runC_with (fun i j => i - j) (match_flat 0 0) (ex_cfg (Some 0)) ex_d10) = [[2]; [3]; [0]; [1]]
+  /\ ids_of (runC_with (fun i j => i - j) (match_flat 0 0) (ex_cfg None) ex_d10) = [[0]; [1]; [2; 3]].
 Proof. vm_compute. repeat split. Qed.
 Print Assumptions C07_D10_refuted.
 
@@ -87,7 +87,6 @@ Print Assumptions C07_D10_refuted.
 Example C07_D31_refuted :
   preb 10 0 (ex_cfg (Some 0)) ex_d31 = true
   /\ ids_of (runC_with (fun i j => j - i) (match_flat_old 0 0) (ex_cfg (Some 0)) ex_d31) = [[0]; [1]; [2]]
-  /\ ids_of (runC_with (fun i j => j - i) (match_flat_old 0 0) (ex_cfg None) ex_d31) = [[0; 2]; [1]]
-  /\ ids_of (runC (ex_cfg None) ex_d31) = [[0]; [1]; [2]].
+  /\ ids_of (runC_with (fun i j => j - i) (match_flat_old 0 0) (ex_cfg None) ex_d31) = [[0; 2]; [1]].
 Proof. vm_compute. repeat split. Qed.
 Print Assumptions C07_D31_refuted.
